@@ -23,32 +23,46 @@ LEVEL_TEXT = ("Lean theorems over Model/Shm.lean (Manager.add/get/close_callback
               "and any number of threads interleaving at that granularity, no update is lost when every site takes pageout_one (the code after the fix), "
               "c08_unlocked_update_full_fails -- with one unlocked site (add/page_in before the fix) an update is lost; the harness forces that schedule on the real "
               "Manager with a real second thread. c08_midio_purge_atomic: a purge of ANY key served while the page-out writer thread is between write and unlink acts like "
-              "'purge, then the job's I/O' (handler-atomic steps lose nothing). Tied to the real Manager by a step-by-step correspondence check, incl. purges "
-              "served from inside Disk._page_out and callbacks run by a second thread inside add/page_in.")
+              "'purge, then the job's I/O' (handler-atomic steps lose nothing). c08_capacity_configured / c08_capacity_executor_partial: the capacity of the store brought up by server.entrypoint is the configured number of bytes whenever "
+              "/dev/shm offers that much, never more than what it offers, and (SafeRun histories) the segments never exceed shm_vol_gb GiB. "
+              "Tied to the real server.entrypoint / LocalServer.__init__ / Manager / LocalServer.start by a step-by-step correspondence check, incl. purges "
+              "served from inside Disk._page_out, callbacks run by a second thread inside add/page_in, two callbacks meeting at free_space or pageout_count, and a failed "
+              "page-in's callback run while page_out_at_least scans the datasets. What the tie samples is bounded: histories of at most 80 (thorough 120) ops, capacity <= 20480.")
 LEVEL_NOTE = ("modelled, not verified: cascade/shm/dataset.py Manager+Dataset, algorithms.py lottery, disk.py Disk (as two maps key->(size,content token); a token also encodes "
               "'m leading pattern bytes, rest zero'), server.py request dispatch (every request of every history goes through it in half of the histories and in all client "
               "calls; FreeSpaceRequest modelled), client.py _send_command/allocate/get/AllocatedBuffer (modelled: sendLoop/clientAlloc/clientGet; exercised over a fake socket). "
-              "Thread level: only the updates of free_space are modelled at micro-step granularity (Lemmas/ShmMicro.lean); other byte-code level races between the server "
-              "thread and pool-thread callbacks (e.g. a failure callback popping from Manager.datasets while page_out_at_least iterates over it) are outside the model; "
-              "Manager.__init__'s capacity trimming is outside (get_capacity is stubbed); POSIX shm/file semantics are validated, not proved")
+              "Thread level: the updates of free_space and of pageout_count (with the release of pageout_all by the last callback of a batch) are modelled at micro-step "
+              "granularity (Lemmas/ShmMicro.lean, ShmMicroCount.lean); a failure callback popping from Manager.datasets while page_out_at_least iterates over it is forced on "
+              "the real code (it was a defect: fix 323e4ce) and is equal to `request; callback` in the model; other byte-code level races between the server thread and "
+              "pool-thread callbacks are outside the model; "
+              "the capacity the store works with is modelled (configCapacity = Manager.__init__: the configured bytes trimmed to what get_capacity() reports, all of it when "
+              "nothing is configured; execCapacity = Executor.__init__'s shm_vol_gb GiB -> bytes) and tied: every history brings the store up through the REAL "
+              "server.entrypoint -> LocalServer.__init__ -> Manager(prefix, capacity) and the model computes the capacity from (configured, available); an executor-level "
+              "probe constructs the real Executor and calls the shm-server process target it would start. get_capacity() is stubbed in the histories (its value is the input 'bytes available') and probed separately with a fake "
+              "subprocess.run (command asked, two-line findmnt output, findmnt missing); richer findmnt outputs (HPC) are outside; POSIX shm/file semantics are validated, not proved")
 TECHNIQUE = "Lean 4 invariant proof (induction over op histories) + differential correspondence of the real shm Manager with harness-controlled disk jobs"
 LEAN_PROPS = ["EkwVerif.Props.C08"]
 LEAN_DRIVERS = ["C08"]
 RULE = ("random histories of 5-80 ops (thorough: up to 120) over 1-5 keys (thorough 6), 1-4 clients; 95% with capacity 1-64 and sizes up to capacity+3 incl. size 0, 5% with "
-        "capacity 4097-20480 and datasets of 4096, 4097, 8192, 8193 and random sizes above disk.py's chunk size (the chunk loop of _page_in iterates); ops: add, "
+        "capacity 4097-20480 and datasets of 4096, 4097, 8192, 8193 and random sizes above disk.py's chunk size (the chunk loop of _page_in iterates); ops: add (12% of them, 10% of the client.allocate calls and two requests at the start of every history: sizes 0, 1, capacity-1, capacity, capacity+1, 2^31-1, "
+        "2^31, 2^32, 2^63-1, 2^63, 2^64-1 sent as the datagram api.ser(AllocateRequest) and decoded by the server whatever the history's mode), "
         "writer create+write (5% of the histories: with a size other than the granted one or after eviction -- counted, not reported), writer close, get (uuid candidates incl. "
         "collisions), reader close, purge, free-space request, I/O part of a pending disk job (ok / REAL failures: spill directory gone, segment cannot be created, file "
         "cannot be opened after the segment was created), a purge of the job's own or another key served from inside Disk._page_out, callback part, a callback run by a real "
-        "second thread while add/page_in is between reading and writing free_space, bogus closes, the real client.allocate / client.get (default and short timeouts, "
+        "second thread while add/page_in is between reading and writing free_space, two callbacks of one batch meeting at the STORE_ATTR of pageout_count or free_space "
+        "(10% of the histories open with such a batch), the callback of a FAILED page-in run while page_out_at_least scans Manager.datasets (7% of the histories open so), "
+        "bogus closes, the real client.allocate / client.get (default and short timeouts, "
         "other clients' disk-job steps during the sleeps), 'everybody finishes then every dataset still held must be readable and an allocation up to the capacity granted' "
         "scenario, 8% life-cycle histories (one key written, evicted, read back, purged, allocated again with the same size and other bytes, several times); clock "
         "advances 1-5 per op with jumps beyond / between the staleness windows; STALE_CREATE/STALE_READ = the source's values (35%) or small different values (65%); half "
-        "of the histories go through LocalServer.start. Known-finding signatures describe the mechanism AT the failing op (the disk job orphaned by a purge, the allocation "
+        "of the histories go through LocalServer.start. Every history boots the store through server.entrypoint with (configured capacity, bytes available): plenty available 70%, around the configured "
+        "value / not configured 30%; 8 executor-level probes (shm_vol_gb None, 0, 1, 2, 3, 64, random). A segment excess is put down to a non-conforming writer only if "
+        "it disappears when THAT writer's segment is corrected (per allocation). Known-finding signatures describe the mechanism AT the failing op (the disk job orphaned by a purge, the allocation "
         "whose segment it consumed), not the history. non-trivial = history with a completed disk-job callback, a 'wait' answer or a granted get; distinct by content hash")
 ASSUMPTIONS = [
-    "request handlers and pool-thread callbacks are atomic steps, except the read-modify-write of Manager.free_space which is modelled (and forced on the real code) at micro-step granularity; a disk job is an I/O step plus a callback step",
+    "request handlers and pool-thread callbacks are atomic steps, except the read-modify-writes of Manager.free_space and Manager.pageout_count (modelled, and forced on the real code, at micro-step granularity) and the scan of Manager.datasets in page_out_at_least (forced on the real code); a disk job is an I/O step plus a callback step; LocalServer.start handles one request at a time (single server thread)",
     "the writer creates its segment with the granted size while its dataset is still 'created' (client.allocate does so right after the grant; executed for real in the client ops)",
-    "time.time_ns and uuid.uuid4 are replaced by deterministic fakes; get_capacity() is stubbed (no findmnt); the per-process multiprocessing resource tracker is disabled in the harness process; STALE_CREATE/STALE_READ (module constants) are replaced by small values in most histories",
+    "time.time_ns and uuid.uuid4 are replaced by deterministic fakes; get_capacity() is stubbed (no findmnt: its return value is the 'bytes available' input); the server's socket and signal modules are replaced by scripted ones; the per-process multiprocessing resource tracker is disabled in the harness process; STALE_CREATE/STALE_READ (module constants) are replaced by small values in most histories",
     "shmid is an injective function of the key (md5 prefix): segments/files are compared by key",
     "explicit client timeouts are those for which the loop's float arithmetic makes the same number of attempts as exact arithmetic (0.1, 0.25, 0.3, 0.35, 0.75 s; for e.g. 0.5 s rounding leaves 2.7e-17 s and one more attempt)",
 ]
